@@ -175,4 +175,34 @@ CHECKS = {
         "level_text": "The budget 3|P| and the at-most-two-consecutive-jumps rule are monitored on every executed iteration of every explored program (max ratio 3.000 is reached by construction), and the static ingredients (target after last writer, bit b set, bit b-1 clear, 8-bit mask) are read back from both engines' compiled form.",
         "level_note": "Exploration: programs and (d, imm, b) triples are sampled.",
     },
+    "C01": {
+        "level": "exploration",
+        "technique": "differential execution across the VM / cache / dataset configuration matrix (all-equal oracle) under the guard allocator",
+        "jobs": lambda tier: [
+            {"variant": "opt", "sub": "c01", "shards": T(tier, 1, 3), "cases": T(tier, 1, 2), "args": {"inputs": T(tier, 6, 40), "threads": 16}, "timeout": T(tier, 1800, 10800), "weight": 16},
+        ],
+        "parallel": 1,
+        "rule": "per key (boundary lengths 32/0/1/12/59/60/61/64/200 then random): up to six caches ({default, JIT} x {ref, SSSE3, AVX2}), a dataset built by the compiled initialiser on 16 threads with odd range boundaries (thorough: a second one by the interpreter initialiser, compared in full), "
+                "and VMs {interpreter, JIT, JIT+SECURE, SECURE without JIT} x {soft, hard AES} x {light on each cache, fast on each dataset}, some with LARGE_PAGES (served by ordinary pages through the interposed mmap), a third created with RANDOMX_FLAG_V2 and switched back with clearFlagV2, the others switched with setFlagV2, a third using first/next/last batches; "
+                "each (key, input, version) digest must be identical across all configurations; non-trivial = at least 12 configurations compared; distinct by hash of the triple",
+        "assumptions": ["agreement says nothing about correctness (C02 ties the common value to the specification)", "large-page VM classes run with ordinary pages (no hugetlb pages in the sandbox)"],
+        "level_text": "Every explored triple is hashed by 36 (quick) to 100+ (thorough) differently configured VM objects over separately prepared caches and datasets and all digests are compared. Keys and inputs are sampled: exploration.",
+        "level_note": "Quick explores one key with 6 inputs x 2 versions; thorough 6 keys x 40 inputs incl. the 100 000-byte input and both dataset initialisers.",
+    },
+    "C03": {
+        "level": "exploration",
+        "technique": "history generator over the API contract + fresh-object oracle, under a hostile allocator (LIFO address reuse, PROT_NONE freed blocks, poisoned/quarantined small objects) and under ASan",
+        "jobs": lambda tier: [
+            {"variant": "opt", "sub": "c03", "shards": 16, "cases": T(tier, 4, 110), "args": {"ops": T(tier, 25, 60)}, "env": {"MALLOC_PERTURB_": "165"}, "timeout": T(tier, 1800, 10800)},
+            {"variant": "opt", "sub": "c03", "shards": T(tier, 0, 2), "cases": 40, "args": {"ops": 60, "datasets": 1, "model_crosscheck": 0}, "timeout": 10800, "weight": 8},
+            {"variant": "asan", "sub": "c03", "shards": T(tier, 8, 16), "cases": T(tier, 2, 16), "args": {"ops": T(tier, 14, 40), "model_crosscheck": 0}, "timeout": T(tier, 1800, 10800)},
+        ],
+        "rule": "a case is one API history over up to 3 caches, 4 VMs (any light class incl. SECURE/LARGE_PAGES; fast classes with 2 datasets in the thorough tier), 4 keys (one empty, two differing only beyond byte 60) and 6 inputs (lengths 0/1/76/200/64/129): every second history starts from one of nine scenario templates "
+                "(release+realloc same key, re-key+re-bind, re-key there and back, two caches with equal key, batch/re-key/batch, version switches between all operations, destroy/create VM on another cache, redundant init, release+realloc other key) instantiated per light VM class, followed by weighted random enabled operations "
+                "(hash, batch of 1-6 with other objects operated on in between, set_cache same/other object x same/other key, init same/other key, alloc/release incl. release while a VM is still bound, create/destroy, setFlagV2/clearFlagV2, set_dataset); scratchpad and tempHash are poisoned between operations; "
+                "every digest is compared with the digest of a fresh cache + fresh VM; non-trivial = contains a re-bind followed by a hash; distinct by hash of the operation sequence",
+        "assumptions": ["fresh digests are computed per shard with newly allocated objects used for one (key, version) each; two entries are tied to the reference model, the rest by C01/C02", "contract: no hash on a VM whose cache was released or re-keyed without re-binding; batches are atomic per VM"],
+        "level_text": "Digests returned inside thousands of contract-respecting histories are compared with fresh-object digests while the allocator maximises address reuse and makes any stale access fault (or trip ASan). Histories are finite and sampled: exploration.",
+        "level_note": "Found and fixed: dangling cache pointer after release + re-allocation at the same address (known_findings.txt).",
+    },
 }
